@@ -139,6 +139,23 @@ package netpoll
 //@   ensures forall a int :: a != buf#arr ==> pool[a] == old(pool[a])
 //@   modifies pool
 
+// Refer: a read-only view of the next n bytes of node.  The view holds exactly one reference, on the root block (a view of a view points
+// at the same root: Release never walks a chain of origins), so that the block outlives every reader sharing it.
+//@ func (*linkBufferNode).Refer
+//@   property C02 C03
+//@   requires 0 <= node.off && 0 <= n && node.off + n <= len(node.buf)
+//@   requires node.origin != nil ==> allocated(node.origin) && node.origin != node && node.origin.origin == nil && node.origin.refer >= 1 && node.origin.refer < 2147483647
+//@   requires node.origin == nil ==> node.refer >= 1 && node.refer < 2147483647
+//@   ensures fresh(p) && p != nil && p.refer == 1 && p.off == 0 && p.next == nil && p.mode == 1
+//@   ensures len(p.buf) == n && p.buf#arr == node.buf#arr && p.buf#base == node.buf#base + old(node.off) && node.off == old(node.off) + n
+//@   ensures old(node.origin) != nil ==> p.origin == old(node.origin) && node.origin.refer == old(node.origin.refer) + 1 && node.origin.kids == old(node.origin.kids) + 1 && node.refer == old(node.refer)
+//@   ensures old(node.origin) == nil ==> p.origin == node && node.refer == old(node.refer) + 1 && node.kids == old(node.kids) + 1
+//@   ensures p.origin.origin == nil && node.origin == old(node.origin)
+//@   ensures forall m *linkBufferNode :: wasalloc(m) && m != node && m != old(node.origin) ==> m.refer == old(m.refer) && m.kids == old(m.kids)
+//@   ensures samepool()
+//@   modifies node.off, linkBufferNode.refer, linkBufferNode.kids, pool, blknode, cacheown, peekown
+//@   ghost before call atomic.AddInt32#1: p.origin.kids = p.origin.kids + 1
+
 //@ func newLinkBufferNode
 //@   property C01 C03
 //@   ensures fresh(result) && result != nil && result.off == 0 && result.malloc == 0 && result.refer == 1 && result.kids == 0
